@@ -96,7 +96,9 @@ func vC09Run(tr *vTrace, id string, c vC09Cfg, salt int64) {
 			away++
 		}
 	}
-	defer func() { tr.Emit(vRec{"ev": "stripes", "id": id, "full": full, "token_away": away, "capW": int(st.policy.window.capacity)}) }()
+	defer func() {
+		tr.Emit(vRec{"ev": "stripes", "id": id, "full": full, "token_away": away, "capW": int(st.policy.window.capacity)})
+	}()
 	tr.Emit(vRec{"ev": "reset", "id": id, "cap": c.cap, "kind": c.kind, "mixed": vb(c.mixed), "warm": vb(c.warm), "loading": vb(c.loading)})
 	hot := c.cap / c.hotFrac
 	if c.mixed {
